@@ -242,3 +242,23 @@ package pebbledb
 
 //@ func generatePebbleRandomID
 //@   noframe
+
+// ---- C18: migration from a JSON file
+// Every signature is decoded into a zero value (json.Decode merges into what is already there), every decoded
+// signature has been handed to a successful AddSignatures when success is reported, and a decoder or batch error is
+// never reported as success. decN (ghost): signatures decoded; sawErr (ghost): a token, signature or batch error.
+//@ func (*PebbleScanner).MigrateFromJSON
+//@   noframe
+//@   protocol-only C06 C07 C10 C11
+//@   ghost decN int
+//@   ghost sawErr bool
+//@   init decN = 0
+//@   init sawErr = false
+//@   call (*encoding/json.Decoder).Decode assert [C18.migrate] hasType(a1, "*detection.Signature") ==> fieldsReset(dyn(a1, "*detection.Signature"))
+//@   call (*encoding/json.Decoder).Decode update decN = decN + ite(hasType(a1, "*detection.Signature") && result == nil, 1, 0)
+//@   call (*encoding/json.Decoder).Decode update sawErr = sawErr || (hasType(a1, "*detection.Signature") && result != nil)
+//@   call (*encoding/json.Decoder).Token update sawErr = sawErr || result1 != nil
+//@   call (*PebbleScanner).AddSignatures update sawErr = sawErr || result != nil
+//@   ensures [C18.migrate] result1 == nil ==> result0 == decN && !sawErr
+//@   loop 1 invariant [C18.migrate] processed == decN && !sawErr
+//@   loop 2 invariant [C18.migrate] processed + len(batch) == decN && !sawErr && len(batch) >= 0
